@@ -18,43 +18,70 @@ META = {
                'C10.workflow': '3 tasks, shapes free / fork / join, compute 10..40', 'C10.algorithms': ['BatchProcessing', 'QueueProcessing', 'DynamicSchedulingFromPlan+static stub'],
                'C10.real_seed_search': 'PYTHONHASHSEED 0..23 on a refutation'},
     'outside_bounds': ["CPython's actual probe sequence (orders are an over-approximation; cross-process equality is replayed, not proved)", 'ready sets > 3 tasks'],
-    'stubs': simh.STUBS + ['E8 RankSet: scheduler.set -> set whose iteration order is a solver-chosen permutation'], 'assumptions': [],
+    'stubs': simh.STUBS + ['E8 RankSet: the name set in every topsim module -> a set subclass whose iteration order (also of derived sets) is a solver-chosen permutation of tasks / machines'], 'assumptions': [],
 }
 PERMS = list(itertools.permutations(range(3)))
 PERM = [PERMS[0]]
 
 
-class RankSet:
-    """stands in for the builtin set inside topsim.core.scheduler: same operations, iteration order given by PERM"""
+def _rank(x):
+    """position of an element in the solver-chosen iteration order: workflow tasks by graph node, machines by index"""
+    g = getattr(x, 'graph_id', None)
+    if isinstance(g, int):
+        return PERM[0][g % 3]
+    i = getattr(x, 'id', None)
+    if isinstance(i, str) and i[-1:].isdigit():
+        return PERM[0][int(i[-1]) % 3]
+    return 0
 
-    def __init__(self, it=()):
-        self._d = {}
-        for x in it:
-            self._d[x] = True
 
-    def add(self, x):
-        self._d[x] = True
-
-    def update(self, it):
-        for x in it:
-            self._d[x] = True
-
-    def __isub__(self, other):
-        for x in list(other):
-            self._d.pop(x, None)
-        return self
-
-    def __contains__(self, x):
-        return x in self._d
-
-    def __len__(self):
-        return len(self._d)
-
-    def __bool__(self):
-        return bool(self._d)
+class RankSet(set):
+    """stands in for the builtin set inside the topsim modules: same operations, but iteration order is the permutation
+    PERM (E8) instead of CPython's hash order; derived sets (difference, union ...) keep the property"""
 
     def __iter__(self):
-        return iter(sorted(self._d, key=lambda t: PERM[0][t.graph_id % 3] if isinstance(t.graph_id, int) else 0))
+        return iter(sorted(set.__iter__(self), key=_rank))
+
+    def _wrap(self, r):
+        return RankSet(set.__iter__(r)) if isinstance(r, set) else r
+
+    def __sub__(self, o):
+        return self._wrap(set.__sub__(self, o))
+
+    def __or__(self, o):
+        return self._wrap(set.__or__(self, o))
+
+    def __and__(self, o):
+        return self._wrap(set.__and__(self, o))
+
+    def __xor__(self, o):
+        return self._wrap(set.__xor__(self, o))
+
+    def difference(self, *o):
+        return self._wrap(set.difference(self, *o))
+
+    def union(self, *o):
+        return self._wrap(set.union(self, *o))
+
+    def intersection(self, *o):
+        return self._wrap(set.intersection(self, *o))
+
+    def copy(self):
+        return RankSet(set.__iter__(self))
+
+    def pop(self):
+        x = next(iter(self))
+        set.discard(self, x)
+        return x
+
+
+def _set_modules():
+    import topsim.core.cluster, topsim.core.buffer, topsim.core.task, topsim.core.planner, topsim.user.telescope
+    import topsim.user.schedule.batch_allocation, topsim.user.schedule.queue_allocation, topsim.user.schedule.dynamic_plan, topsim.user.schedule.greedy
+    import topsim.user.plan.batch_planning, topsim.core.monitor, topsim.core.simulation
+    return [S, topsim.core.cluster, topsim.core.buffer, topsim.core.task, topsim.core.planner, topsim.user.telescope,
+            topsim.user.schedule.batch_allocation, topsim.user.schedule.queue_allocation, topsim.user.schedule.dynamic_plan,
+            topsim.user.schedule.greedy, topsim.user.plan.batch_planning, topsim.core.monitor, topsim.core.simulation]
 
 
 def scenario(s2, c0, c1, c2):
@@ -62,7 +89,7 @@ def scenario(s2, c0, c1, c2):
     edges = {'free': [], 'fork': [[0, 1, 5], [0, 2, 5]], 'join': [[0, 2, 5], [1, 2, 5]]}[shape]
     sc = dict(machines=PIN.get('machines', [10, 20]), bw=5, max_ingest=2, arrays=4, hot=1000, cold=1000, hot_rate=100, cold_rate=100,
               obs=[dict(start=0, dur=1, arrays=1, ingest=1, rate=5), dict(start=s2, dur=2, arrays=1, ingest=1, rate=5)],
-              graphs=[dict(n=3, edges=edges, comps=[10 * c0, 10 * c1, 10 * c2])], alg=dict(kind='queue'), delays=[])
+              graphs=[dict(n=3, edges=edges, comps=[PIN.get('scale', 10) * c0, PIN.get('scale', 10) * c1, PIN.get('scale', 10) * c2])], alg=dict(kind='queue'), delays=[])
     a = PIN.get('alg', 'queue')
     if a == 'batch':
         sc['alg'] = dict(kind='batch', parts=1, min=1)
@@ -76,15 +103,18 @@ def scenario(s2, c0, c1, c2):
 
 def _outputs(sc, perm):
     PERM[0] = PERMS[perm]
-    old = S.__dict__.get('set')
-    S.set = RankSet
+    mods = _set_modules()
+    saved = [m.__dict__.get('set') for m in mods]
+    for m in mods:
+        m.set = RankSet                    # every set() created by topsim code in this run iterates in the chosen order
     try:
         return simh.outputs(simh.run_public(sc, [PIN.get('T', 24)]))
     finally:
-        if old is None:
-            del S.set
-        else:
-            S.set = old
+        for m, old in zip(mods, saved):
+            if old is None:
+                del m.set
+            else:
+                m.set = old
 
 
 def seeds_differ(sc, n=24):
@@ -169,16 +199,23 @@ def seeds_job(spec):
     """translation validation of the RankSet abstraction: the same scenarios on the REAL interpreter under different
     PYTHONHASHSEED values must give one digest (no solver involved; counted as traces validated against the implementation)"""
     n = 0
-    for alg, shape, args in (('queue', 'free', (0, 3, 4, 4)), ('batch', 'join', (1, 4, 1, 4)), ('dynamic', 'free', (0, 3, 1, 1))):
+    for pin, args in (({'alg': 'queue', 'shape': 'free'}, (0, 3, 4, 4)), ({'alg': 'batch', 'shape': 'join'}, (1, 4, 1, 4)),
+                      ({'alg': 'dynamic', 'shape': 'free'}, (0, 3, 1, 1)), ({'alg': 'batch', 'shape': 'free', 'machines': [10, 20, 30, 40], 'scale': 30}, (1, 2, 3, 4))):
         PIN.clear()
-        PIN.update(alg=alg, shape=shape)
+        PIN.update(pin)
         sc = scenario(*args)
         n += 6
         if seeds_differ(sc, 6):
-            return {'status': 'REFUTED', 'cex': {'pa': 1, 's2': args[0], 'c0': args[1], 'c1': args[2], 'c2': args[3]}, 'paths': 1, 'queries': 1,
-                    'cex_message': f'outputs differ between PYTHONHASHSEED values for {alg}/{shape}/{args}', 'pin': {'alg': alg, 'shape': shape}, 'fn': 'order', 'validated': n}
-    return {'status': 'CONFIRMED', 'paths': 3, 'queries': 0, 'validated': n, 'detail': '3 scenarios x 6 hash seeds on the real interpreter: one digest each',
+            # a difference between real interpreter processes needs no abstraction: the replay re-runs the seed search itself
+            return {'status': 'REFUTED', 'cex': {'s2': args[0], 'c0': args[1], 'c1': args[2], 'c2': args[3]}, 'paths': 1, 'queries': 1,
+                    'cex_message': f'outputs differ between PYTHONHASHSEED values for {pin}/{args}', 'pin': pin, 'fn': 'seeds', 'validated': n}
+    return {'status': 'CONFIRMED', 'paths': 4, 'queries': 0, 'validated': n, 'detail': '4 scenarios x 6 hash seeds on the real interpreter: one digest each',
             'witnesses': [{'scenario': 'queue/free (0,3,4,4)', 'seeds': 6, 'digests': 1}]}
+
+
+def seeds_tag(s2, c0, c1, c2):
+    """replay entry of the real-interpreter job: the same scenario under different PYTHONHASHSEED values"""
+    return 'C10/outputs-differ-between-PYTHONHASHSEED-values' if seeds_differ(scenario(s2, c0, c1, c2), 12) else None
 
 
 def warmup():
@@ -193,6 +230,9 @@ def shards(tier, prop):
             out.append({'fn': 'order', 'pin': {'alg': alg, 'shape': shape}, 'cond_timeout': T})
         out.append({'fn': 'order', 'pin': {'alg': alg, 'shape': 'free', 'machines': [10, 20, 20]}, 'cond_timeout': T})
         out.append({'fn': 'rerun', 'pin': {'alg': alg, 'shape': 'fork'}, 'cond_timeout': T})
+    # a reservation of several unequal machines that is released and handed to the next workflow
+    out.append({'fn': 'order', 'pin': {'alg': 'batch', 'shape': 'free', 'machines': [10, 20, 30, 40], 'scale': 30}, 'cond_timeout': T})
+    out.append({'fn': 'order', 'pin': {'alg': 'batch', 'shape': 'fork', 'machines': [10, 20, 30, 40], 'scale': 30}, 'cond_timeout': T})
     out.append({'kind': 'py', 'fn': 'seeds_job', 'cond_timeout': 200, 'name': 'real-interpreter:hash-seeds'})
     out.append({'fn': 'order', 'pin': {'alg': 'queue', 'shape': 'free'}, 'cond_timeout': 40, 'twin': True})
     return out
